@@ -16,7 +16,8 @@ Line protocol of C09 (see harness/c09/c09.go).
 
 Ops: `c09.dedupe F`, `c09.bands F`, `c09.lines tol F`, `c09.blines minw G`, `c09.linetext F`,
 `c09.sep gaps F`, `c09.create gaps F`, `c09.validate G`, `c09.cols gaps F`, `c09.seg n bits`,
-`c09.bgroup G`, `c09.bmerge G/…` , `c09.blocks G`, `c09.etree H L P`, `c09.asm F`,
+`c09.bgroup G`, `c09.bmerge G/…` , `c09.blocks G`, `c09.etree H L P` (fragment ids of the headings,
+lists and paragraphs, `a.b|c.d`: the paragraphs not emitted as they are), `c09.asm F`,
 `c09.preserve F`, `c09.bycol S`, `c09.joinpara S`.
 
 Second layer (Model/LayoutOrder.lean): `c09.stream F` (shouldPreserveStreamOrder), `c09.lineso tol F`
@@ -311,28 +312,46 @@ def parsePPar (s : String) : Option PPar :=
     pure { ids := ids, box := ← parseBox b, fs := ← parseRat fs, isH := isH == "1", ty := ← ty.toNat? }
   | _ => none
 
-/-- `ids@x,y,w,h` -/
-def parseRoPar (s : String) : Option Elem :=
+/-- `ids@x,y,w,h@x,y,w,h`: a reading-order paragraph with its box and the box of what remains of
+it when a heading or list takes fragments out of it (an input; its own box when nothing or
+everything remains) -/
+def parseRoPar (s : String) : Option (Elem × Box) :=
   match s.splitOn "@" with
-  | [ids, b] => do
+  | [ids, b, rb] => do
     let ids ← (ids.splitOn ".").mapM (·.toNat?)
-    pure { box := ← parseBox b, ids := ids }
+    pure ({ box := ← parseBox b, ids := ids }, ← parseBox rb)
   | _ => none
+
+/-- `a.b.c|d.e` (`-` = none): lists of fragment ids -/
+def parseIdLists (s : String) : Option (List (List Nat)) :=
+  if s == "-" then some [] else (s.splitOn "|").mapM fun g => (g.splitOn ".").mapM (·.toNat?)
+
+/-- the indices of the paragraphs the repaired tree does not emit as they are -/
+def changedPars : List Nat → List (List Nat) → Nat → List Nat
+  | _, [], _ => []
+  | shown, p :: r, k =>
+    if (notShown shown p).1.length == p.length then changedPars (notShown shown p).2 r (k + 1)
+    else k :: changedPars (notShown shown p).2 r (k + 1)
 
 def elemStr (kind : String) (e : Elem) : String :=
   kind ++ ":" ++ ".".intercalate ((sortNat e.ids).map toString) ++ ":" ++
     ratStr e.box.x ++ "," ++ ratStr e.box.y ++ "," ++ ratStr e.box.w ++ "," ++ ratStr e.box.h
 
-/-- the analysis elements: `c09.elems PAGEPARS ROPARS` (lists joined by `;`, `-` = none) -/
+/-- the analysis elements: `c09.elems PAGEPARS ROPARS` (lists joined by `;`, `-` = none; a
+reading-order paragraph is `ids@box@box-of-its-remainder`) -/
 def handle6 (op : String) (args : List String) : String :=
   match op, args with
   | "c09.elems", [pp, rp] =>
     match (if pp == "-" then some [] else (pp.splitOn ";").mapM parsePPar),
           (if rp == "-" then some [] else (rp.splitOn ";").mapM parseRoPar) with
-    | some ps, some ro =>
-      let hs := headingElems ps
+    | some ps, some rob =>
+      let ro := rob.map (·.1)
+      let rbox := fun (p : Elem) (_ : List Nat) => match rob.find? (fun e => e.1.ids == p.ids) with
+        | some e => e.2
+        | none => p.box
       let ls := listElems 2 2 ps
-      let tree := pageElements ps ro
+      let hs := shownHeadings (headingElems ps) ls
+      let tree := pageElements rbox ps ro
       let kept := tree.drop (hs.length + ls.length)
       let strs := hs.map (elemStr "H") ++ ls.map (elemStr "L") ++ kept.map (elemStr "P")
       let sorted := strs.mergeSort (fun a b => !decide (b < a))
@@ -383,10 +402,11 @@ def handle (op : String) (args : List String) : String :=
   | "c09.blocks", [g] => match parseGroups g with
     | some ls => blocksStr (detectBlocks blockBreakGo blocksOverlapGo 10 5 ls)
     | none => "bad-op"
-  | "c09.etree", [h, l, p] => match parseBoxes h, parseBoxes l, parseBoxes p with
+  | "c09.etree", [h, l, p] => match parseIdLists h, parseIdLists l, parseIdLists p with
     | some hs, some ls, some ps =>
-      let mk := fun (b : Box) => ({ box := b, ids := [] } : Elem)
-      idList ((ps.zipIdx.filter fun pi => consumed bboxOverlaps (hs.map mk) (ls.map mk) (mk pi.1)).map (·.2))
+      let mk := fun (ids : List Nat) => ({ box := ⟨0, 0, 0, 0⟩, ids := ids } : Elem)
+      let hs' := shownHeadings (hs.map mk) (ls.map mk)
+      idList (changedPars (ls.flatten ++ hs'.flatMap (·.ids)) ps 0)
     | _, _, _ => "bad-op"
   | "c09.asm", [f] => match parseFrags f with
     | some fs => hexS (assembleText fs) | none => "bad-op"
